@@ -91,7 +91,12 @@ def draw_program(draw):
         res = [draw(st.integers(0, nloc - 1)) for _ in range(nres)]
         if nres and all(r < nargs for r in res):
             res[-1] = nloc - 1
-        funcs.append({"name": "f%d" % fi, "nargs": nargs, "shape": shape, "body": body, "nres": nres, "res": res,
+        # function names: plain, or sets of names that differ only in a punctuation character ("g.1" / "g_1" / "g-1")
+        style = draw(st.sampled_from(["f%d", "f%d", "g.%d", "g_%d", "g-%d", "G%d", "g+%d"]))
+        fname = style % (fi if style.startswith("f") else draw(st.integers(0, 1)))
+        if any(g_["name"] == fname for g_ in funcs):
+            fname = "f%d" % fi
+        funcs.append({"name": fname, "nargs": nargs, "shape": shape, "body": body, "nres": nres, "res": res,
                       "rshape": (draw(st.sampled_from(["tuple", "list"])) if nres > 1 else "single") if nres else draw(st.sampled_from(["none", "plainint"]))})
     # optional second body under an existing name
     clash = None
@@ -154,16 +159,21 @@ def draw_program(draw):
     return {"funcs": funcs, "clash": clash, "main": main}
 
 
+def pyname(f):
+    """Python identifier of the generated function (the qaptools function NAME may contain other characters)"""
+    return "fn_" + "".join(ch if ch.isalnum() else "_%02x" % ord(ch) for ch in f["name"])
+
+
 def render(prog):
     L = [PROLOGUE]
 
-    def fun(f, pyname, funcs):
+    def fun(f, py_, funcs):
         L.append('@qb.subqap("%s")' % f["name"])
         args = ["a%d" % i for i in range(f["nargs"])]
         if f["shape"] == "flat":
-            L.append("def %s(%s):" % (pyname, ", ".join(args)))
+            L.append("def %s(%s):" % (py_, ", ".join(args)))
         else:
-            L.append("def %s(args):" % pyname)
+            L.append("def %s(args):" % py_)
             L.append("    %s = args" % (", ".join(args) + ("," if len(args) == 1 else "")))
         loc = list(args)
         for s in f["body"]:
@@ -190,9 +200,9 @@ def render(prog):
                 g = funcs[s[1]]
                 names = ["t%d" % (len(loc) + k) for k in range(g["nres"])]
                 if g["nres"]:
-                    L.append("    %s = %s" % (", ".join(names) + ("," if g["nres"] == 1 and g["rshape"] != "single" else ""), call_expr(g, "fn_%s" % g["name"], [loc[i] for i in s[2]])))
+                    L.append("    %s = %s" % (", ".join(names) + ("," if g["nres"] == 1 and g["rshape"] != "single" else ""), call_expr(g, pyname(g), [loc[i] for i in s[2]])))
                 else:
-                    L.append("    %s" % call_expr(g, "fn_%s" % g["name"], [loc[i] for i in s[2]]))
+                    L.append("    %s" % call_expr(g, pyname(g), [loc[i] for i in s[2]]))
                 loc.extend(names)
         res = [loc[i] for i in f["res"]]
         if f["rshape"] == "none":
@@ -207,16 +217,16 @@ def render(prog):
             L.append("    return [%s]" % ", ".join(res))
         L.append("")
 
-    def call_expr(f, pyname, argnames):
+    def call_expr(f, py_, argnames):
         if f["shape"] == "flat":
-            return "%s(%s)" % (pyname, ", ".join(argnames))
+            return "%s(%s)" % (py_, ", ".join(argnames))
         if f["shape"] == "list":
-            return "%s([%s])" % (pyname, ", ".join(argnames))
-        return "%s((%s,))" % (pyname, ", ".join(argnames))
+            return "%s([%s])" % (py_, ", ".join(argnames))
+        return "%s((%s,))" % (py_, ", ".join(argnames))
     for f in prog["funcs"]:
-        fun(f, "fn_%s" % f["name"], prog["funcs"])
+        fun(f, pyname(f), prog["funcs"])
     if prog["clash"]:
-        fun(prog["clash"]["func"], "fn_%s_alt" % prog["clash"]["func"]["name"], prog["funcs"])
+        fun(prog["clash"]["func"], pyname(prog["clash"]["func"]) + "_alt", prog["funcs"])
     v = []
     L.append("LEAK = PrivVal(5)")
     for s in prog["main"]:
@@ -234,7 +244,7 @@ def render(prog):
             L.append("%s.val()" % v[s[1]])
         else:
             f = prog["funcs"][s[1]]
-            py = "fn_%s%s" % (f["name"], "_alt" if s[3] else "")
+            py = pyname(f) + ("_alt" if s[3] else "")
             names = ["v%d" % (len(v) + k) for k in range(f["nres"])]
             L.append('CALLS.append(["%s", %d, %d])' % (f["name"], f["nargs"], f["nres"]))
             if f["nres"]:
